@@ -28,7 +28,7 @@ ASSUMPTIONS = ['qubit 0 is the most significant bit (documented: "count from lef
                'dense reference limited to n<=7 qubits; larger states pass through unmonitored (counted)']
 DECIDING = ['numqi.sim.state.apply_gate', 'numqi.sim.state.apply_control_n_gate', 'numqi.sim.state.reduce_to_probability',
             'numqi.sim.state.inner_product_psi0_O_psi1', 'numqi.sim.dm.apply_gate', 'numqi.sim.dm.operator_expectation',
-            'Circuit.apply_state', 'Circuit.to_unitary', 'program/to_unitary']
+            'Circuit.apply_state', 'Circuit.to_unitary', 'program/to_unitary', 'program/torch-wrapper-forward']
 NMAX = 7
 
 
@@ -40,6 +40,7 @@ def shards(tier, seed):
     ret += [{'name': 'realistic'}]
     if tier == 'thorough':
         ret += [{'name': f'wiring-n4-{i}', 'n': 4, 'part': i, 'nparts': 6} for i in range(6)]
+        ret += [{'name': 'repo-tests'}]
     return ret
 
 
@@ -590,6 +591,19 @@ def check_program(ctx, circ, log, n, desc, tag):
         q1 = circ.apply_state(q0)
         ctx.close(q1, ref_unitary(log, nbig) @ q0, 1e-10, 'program/apply_state', 'apply_state differs from multiplying by the logged program\'s unitary',
                   {'program': desc[:40], 'stage': tag, 'register': nbig})
+        # the same program through the torch wrapper (trainable gates are rebuilt from their parameters by the torch path of the gate functions)
+        if tag in ('built', 'parameters-updated') and rng.random() < 0.5:
+            import torch
+            try:
+                with ctx.quiet():
+                    wrap = ctx.numqi_mod.sim.CircuitTorchWrapper(circ)
+            except Exception:
+                ctx.inconclusive('torch-wrapper-construction-rejected-program')
+                return
+            qt = rq.rand_state(rng, 2**nq)
+            out = wrap(torch.tensor(qt))
+            ctx.close(out.detach().numpy(), ref @ qt, 1e-10, 'program/torch-wrapper-forward', 'CircuitTorchWrapper forward differs from the logged program\'s unitary',
+                      {'program': desc[:40], 'stage': tag}, point='program/torch-wrapper-forward')
 
 
 def run_programs(ctx, mon, numqi, part):
@@ -708,6 +722,7 @@ def run(ctx, shard):
     import numqi
     mon = Monitors(ctx, numqi)
     mon.install()
+    ctx.numqi_mod = numqi
     name = shard['name']
     if name.startswith('wiring-n'):
         ctx.workload('exhaustive')
@@ -727,4 +742,7 @@ def run(ctx, shard):
         run_programs(ctx, mon, numqi, shard['part'])
     elif name == 'realistic':
         run_realistic(ctx, mon, numqi)
+    elif name == 'repo-tests':
+        from vmon.repotests import run_repo_tests
+        run_repo_tests(ctx, ['tests_sim/test_sim_state.py', 'tests_sim/test_sim_dm.py', 'tests_sim/test_sim_circuit.py', 'test_gate.py'])
     ctx.extra['worst_abs_error'] = mon.worst
